@@ -735,15 +735,9 @@ func (c *codegen) Visit(node ast.Node) ast.Visitor {
 				}
 				multiRet := n.Tok == token.VAR && len(t.Values) != 0 && len(t.Names) != len(t.Values)
 				defaultGlobal := len(t.Values) == 0 && c.scope == nil
-				for _, id := range t.Names {
-					if id.Name != "_" {
-						// Filter out globals: by this moment they are already registered in
-						// a separate AST traversal in registerGlobals, so handle only locals.
-						if c.scope != nil {
-							c.scope.newLocal(id.Name)
-						}
-
-						if !multiRet {
+				if !multiRet {
+					for _, id := range t.Names {
+						if id.Name != "_" {
 							c.registerDebugVariable(id.Name, t.Type)
 						}
 					}
@@ -753,45 +747,74 @@ func (c *codegen) Visit(node ast.Node) ast.Visitor {
 				if defaultGlobal {
 					return nil
 				}
-				for i, id := range t.Names {
-					if id.Name != "_" {
-						if !isMapKeyCheck {
-							if len(t.Values) == 0 {
-								c.emitDefault(c.typeOf(t.Type))
-							} else if i == 0 || !multiRet {
-								c.saveExprSequencePoint(t.Values[i])
-								c.walkValue(t.Values[i])
-							}
-							if i == len(t.Names)-1 && len(t.Values) != 0 {
-								// The sequence point includes sign "=".
-								c.saveSequencePoint(t.Names[i].Pos(), t.Values[0].Pos())
-							} else {
-								c.saveSequencePoint(t.Names[i].Pos(), t.Names[i].End())
-							}
+				// eval emits the code computing the value of the i-th name (if any) and
+				// tells whether something was left on the stack for it.
+				eval := func(i int) bool {
+					if isMapKeyCheck || i != 0 && multiRet {
+						return true // already on the stack
+					}
+					if t.Names[i].Name != "_" {
+						if len(t.Values) == 0 {
+							c.emitDefault(c.typeOf(t.Type))
+						} else {
+							c.saveExprSequencePoint(t.Values[i])
+							c.walkValue(t.Values[i])
 						}
-						c.emitStoreVar("", t.Names[i].Name)
-						continue
+						return true
 					}
 					// If var decl contains call then the code should be emitted for it, otherwise - do not evaluate.
-					if len(t.Values) == 0 {
-						continue
+					if len(t.Values) == 0 || !containsCall(t.Values[i]) {
+						return false
 					}
-					var hasCall bool
-					if i == 0 || !multiRet {
-						hasCall = containsCall(t.Values[i])
-					}
-					if hasCall {
-						c.saveExprSequencePoint(t.Values[i])
-						ast.Walk(c, t.Values[i])
-					}
-					if hasCall || isMapKeyCheck || i != 0 && multiRet {
-						if i == len(t.Names)-1 {
+					c.saveExprSequencePoint(t.Values[i])
+					ast.Walk(c, t.Values[i])
+					return true
+				}
+				// store pops the value of the i-th name into its variable (or drops it).
+				store := func(i int) {
+					if !isMapKeyCheck || t.Names[i].Name == "_" {
+						if i == len(t.Names)-1 && len(t.Values) != 0 {
 							// The sequence point includes sign "=".
 							c.saveSequencePoint(t.Names[i].Pos(), t.Values[0].Pos())
 						} else {
 							c.saveSequencePoint(t.Names[i].Pos(), t.Names[i].End())
 						}
-						c.emitStoreVar("", "_") // drop unused after walk
+					}
+					c.emitStoreVar("", t.Names[i].Name)
+				}
+				// Globals are already registered in a separate AST traversal in registerGlobals.
+				if c.scope == nil {
+					for i := range t.Names {
+						if eval(i) {
+							store(i)
+						}
+					}
+					continue
+				}
+				// The scope of a local variable begins after its ValueSpec, so all the
+				// initializers are compiled before the new names are registered: `var x = x + 1`
+				// in a nested block refers to the outer x.
+				onStack := make([]bool, len(t.Names))
+				for i := range t.Names {
+					onStack[i] = eval(i)
+				}
+				for _, id := range t.Names {
+					if id.Name != "_" {
+						c.scope.newLocal(id.Name)
+					}
+				}
+				if multiRet || isMapKeyCheck {
+					// The first value is on top of the stack.
+					for i := range t.Names {
+						if onStack[i] {
+							store(i)
+						}
+					}
+				} else {
+					for i := range slices.Backward(t.Names) {
+						if onStack[i] {
+							store(i)
+						}
 					}
 				}
 			}
